@@ -230,13 +230,39 @@ Qed.
 Lemma nth_app_keep {A} (l : list A) x i s : nth_error l i = Some s -> nth_error (l ++ [x]) i = Some s.
 Proof. intros H. rewrite nth_error_app1; [exact H|]. apply nth_error_Some. congruence. Qed.
 
+Lemma nth_insert_le {A} (l : list A) n x i s : (i < n)%nat -> nth_error l i = Some s ->
+  nth_error (firstn n l ++ x :: skipn n l) i = Some s.
+Proof.
+  revert n i; induction l as [|y l IH]; intros n i H Hs.
+  - destruct i; discriminate.
+  - destruct n as [|n]; [lia|]. destruct i as [|i]; [exact Hs|]. simpl in *. apply IH; [lia|exact Hs].
+Qed.
+
+Lemma nth_insert_gt {A} (l : list A) n x i s : (n <= i)%nat -> nth_error l i = Some s ->
+  nth_error (firstn n l ++ x :: skipn n l) (S i) = Some s.
+Proof.
+  revert n i; induction l as [|y l IH]; intros n i H Hs.
+  - destruct i; discriminate.
+  - destruct n as [|n]; [exact Hs|]. destruct i as [|i]; [lia|]. simpl in *. apply IH; [lia|exact Hs].
+Qed.
+
+Lemma wall_insert l i j st l' :
+  l_stubs l' = firstn (S j) (l_stubs l) ++ st :: skipn (S j) (l_stubs l) -> wall l i ->
+  if (j <? i)%nat then wall l' (S i) else wall l' i.
+Proof.
+  intros Hl (t & Ht & Hd). destruct (Nat.ltb_spec j i) as [Hlt|Hge]; exists t; rewrite Hl; (split; [|exact Hd]).
+  - apply nth_insert_gt; [lia|exact Ht].
+  - apply nth_insert_le; [lia|exact Ht].
+Qed.
+
 Theorem wall_ctl l a l' i : ctl_step l a = Some l' -> wall l i ->
   match a with
   | CDelete j => if (j <? i)%nat then wall l' (i - 1) else wall l' i
+  | CInsertAfter j _ _ | CInsertDead j _ => if (j <? i)%nat then wall l' (S i) else wall l' i
   | _ => wall l' i
   end.
 Proof.
-  intros H Hw. destruct a as [j|j tx eff|tx eff|j|j|j|j]; cbn [ctl_step] in H.
+  intros H Hw. destruct a as [j|j tx eff|tx eff|j|j|j|j|j tx|j|j|j tx eff|j tx]; cbn [ctl_step] in H.
   - destruct (nth_error (l_stubs l) j) as [s|] eqn:Hn; [|discriminate].
     destruct (listens_interrupt s) eqn:Hli; [|discriminate]. inversion H; subst.
     eapply wall_set_own; [exact Hn| |exact Hw]. apply not_dead_mode. intros E.
@@ -272,6 +298,35 @@ Proof.
     apply wall_close_downstream. apply wall_upd; [|exact Hw].
     intros t Ht Hd. rewrite Hn in Ht. inversion Ht; subst t.
     unfold dead, is_exited in *. cbn [s_st s_closed]. apply andb_prop in Hd as [-> _]. reflexivity.
+  - (* attribute write: state and closed flag untouched *)
+    destruct (nth_error (l_stubs l) j) as [s|] eqn:Hn; [|discriminate]. inversion H; subst.
+    apply wall_upd; [|exact Hw]. intros t Ht Hd. rewrite Hn in Ht. inversion Ht; subst t. exact Hd.
+  - (* flush loop receives: the receiving stub keeps state and flag, the sender was sending (not dead) *)
+    destruct j as [|j]; [discriminate|].
+    destruct (nth_error (l_stubs l) (S j)) as [s|] eqn:Hn; [|discriminate].
+    destruct (nth_error (l_stubs l) j) as [sp|] eqn:Hnp; [|discriminate].
+    destruct (is_exited s && negb (s_closed s) && (s_cap s =? 0) && _); [|discriminate].
+    assert (Hgen : forall c, s_st sp <> Exited ->
+      wall (stub_sent (upd_stub l (S j) (mkStub (s_tx s) (s_eff s) (s_st s) (s_ps s) [c] (s_cap s) (s_in_closed s) (s_closed s))) j sp) i).
+    { intros c Hne. set (l1 := upd_stub l (S j) _).
+      assert (Hw1 : wall l1 i).
+      { apply wall_upd; [|exact Hw]. intros t Ht Hd. rewrite Hn in Ht. inversion Ht; subst t. exact Hd. }
+      assert (Hnp1 : nth_error (l_stubs l1) j = Some sp).
+      { unfold l1, upd_stub; cbn [l_stubs]. rewrite nth_set_nth_other by lia. exact Hnp. }
+      unfold stub_sent. destruct (on_sent _ _ _ _) as [st' ps'].
+      eapply wall_set_own; [exact Hnp1| |exact Hw1]. apply not_dead_mode. exact Hne. }
+    destruct (mode_of (s_st sp)) eqn:Hm; try discriminate; inversion H; subst;
+      (apply Hgen; intros E; rewrite E in Hm; discriminate).
+  - (* close at the end of the flush *)
+    destruct (nth_error (l_stubs l) j) as [s|] eqn:Hn; [|discriminate].
+    destruct (is_exited s && negb (s_closed s) && s_in_closed s && _) eqn:Hc; [|discriminate]. inversion H; subst.
+    apply wall_close_downstream. apply wall_upd; [|exact Hw].
+    intros t Ht Hd. rewrite Hn in Ht. inversion Ht; subst t.
+    unfold dead, is_exited in *. cbn [s_st s_closed]. apply andb_prop in Hd as [-> _]. reflexivity.
+  - destruct (Nat.ltb j (length (l_stubs l))); [|discriminate]. inversion H; subst.
+    eapply wall_insert; [|exact Hw]. reflexivity.
+  - destruct (Nat.ltb j (length (l_stubs l))); [|discriminate]. inversion H; subst.
+    eapply wall_insert; [|exact Hw]. reflexivity.
 Qed.
 
 (** the whole removal: interrupt + Cleanup, from any live state of the timeout stage *)
